@@ -86,8 +86,11 @@ func (cs ChainStorage) FindConversionChain(crdName string, rule Rule) []Rule {
 					continue
 				}
 
-				//nolint
-				newPath := append(chain.PathsCache[ruleToCheck], nextRule)
+				// Copy the cached path: appending to it directly may share its backing
+				// array with other paths built from the same prefix.
+				newPath := make([]Rule, 0, len(chain.PathsCache[ruleToCheck])+1)
+				newPath = append(newPath, chain.PathsCache[ruleToCheck]...)
+				newPath = append(newPath, nextRule)
 
 				// This path is already discovered.
 				p := chain.SearchPathForRule(newRule)
